@@ -2,7 +2,7 @@
 from vlib import skel
 from vlib.xh import Job
 
-NOCL_LABELS = ("one-", "two", "three-global", "class-methods", "two-classes", "brace-next", "params-multiline", "stmt-mix")
+NOCL_LABELS = ("one-", "two", "three-global", "class-methods", "two-classes", "brace-next", "params-multiline", "stmt-mix", "nested-first", "nested-middle", "nested-two", "nested-3-levels")
 
 
 def _jobs(ctx, mode, func, label_filter=None):
@@ -48,6 +48,6 @@ def run_c04(ctx):
 
 def run_c17(ctx):
     jobs, n = _jobs(ctx, "nocl", "h_nocl", lambda lang, label: label.startswith(NOCL_LABELS) and "async" not in label)
-    ctx.bounds.update({"part 2 skeletons": f"{n} canonical programs without nesting (<= 3 functions)", "marker line": "any line >= 1 (solver variable), together with <= 10 unbounded line gaps"})
+    ctx.bounds.update({"part 2 skeletons": f"{n} canonical programs (<= 3 functions; with nesting only the presence of the functions related to the marked one is prescribed)", "marker line": "any line >= 1 (solver variable), together with <= 10 unbounded line gaps"})
     ctx.assumptions += COMMON_ASSUME
     return ctx.run_xh(jobs)
